@@ -64,12 +64,48 @@ def rule_m1(chk: Check, ix: Index):
             structural = any(("Token.NEWLINE" in t or "Token.INDENT" in t or "Token.DEDENT" in t) for t in tests)
             chk.require(structural, "M1-must-append", f"consume_with_macro_params:continue@{tests[-1] if tests else '?'}", f"{g.rel}:{n.lineno}",
                         "a token is skipped by the block capture although it is not a NEWLINE/INDENT/DEDENT: its line may be lost")
-    upd = [norm_stmt(n) for n in own_nodes(g.node) if isinstance(n, ast.Assign) and norm_stmt(n.targets[0]).startswith("lines[")]
+    # every physical line of every captured token is kept once: whole lines, except that the one-line form starts at the
+    # first token (finite-domain evaluation of the stored expression)
+    import types
+    from .. import constfold, physlines
+    helper = physlines.rule_helper(chk, ix, "M1-must-append")
     chk.count("M1-must-append")
-    chk.require(upd == ["lines[tok.start[0]] = tok.line if is_indented else tok.line[tok.start[1]:]"], "M1-must-append",
-                "consume_with_macro_params:line-capture", g.where,
-                f"each captured line is the token's whole line (block form) or the rest of the line from the first token on "
-                f"(one-line form); found {upd}")
+    stores = [n for n in own_nodes(g.node) if isinstance(n, ast.Assign) and isinstance(n.targets[0], ast.Subscript)
+              and norm_stmt(n.targets[0].value) == "lines"]
+    why = ""
+    if helper is None:
+        why = "no physical-lines helper"
+    elif len(stores) != 1:
+        why = f"{len(stores)} stores into the captured lines"
+    else:
+        st = stores[0]
+        loops = [(l, num, text) for l, num, text in physlines.consumer_loops(g.node, helper) if any(st is x for b in l.body for x in ast.walk(b))]
+        if not loops:
+            why = "the store is not inside a loop over the physical lines of the token"
+        else:
+            loop, num, text = loops[0]
+            if norm_stmt(st.targets[0].slice) != num:
+                why = f"stored under `{norm_stmt(st.targets[0].slice)}`, not under the line's own number"
+            guard = [i for i in ast.walk(loop) if isinstance(i, ast.If) and any(st is x for x in ast.walk(i))]
+            if not why and not any(norm_stmt(i.test) == f"{num} not in lines" for i in guard):
+                why = "a line already captured is overwritten (first token on a line wins)"
+            if not why:
+                calls = [c for c in ast.walk(g.node) if isinstance(c, ast.Call) and norm_stmt(c.func).endswith(helper.split(".")[-1]) and c.args]
+                tokname = norm_stmt(calls[0].args[0]) if calls else "tok"
+                for indented in (True, False):
+                    for ln in (5, 6):
+                        env = {text: "    abc def\n", num: ln, "is_indented": indented, tokname: types.SimpleNamespace(start=(5, 4), line="")}
+                        try:
+                            got = constfold.fold_expr(st.value, env, data_attrs=("start", "line"))
+                        except Exception as e:
+                            why = f"stored text not evaluable: {e}"
+                            break
+                        want = "    abc def\n" if (indented or ln > 5) else "abc def\n"
+                        if got != want:
+                            why = f"for is_indented={indented}, line {'after the first' if ln > 5 else 'of the token start'} it keeps {got!r}, expected {want!r}"
+    chk.require(not why, "M1-must-append", "consume_with_macro_params:line-capture", g.where,
+                f"each physical line of the block is captured once, whole (block form) or from the first token on (one-line form, first "
+                f"line only): {why}")
     chk.count("M1-must-append")
     chk.require(any(norm_stmt(n) == "string = ''.join(lines.values())" for n in own_nodes(g.node) if isinstance(n, ast.Assign)),
                 "M1-must-append", "consume_with_macro_params:join", g.where, "captured lines must be joined in order, unchanged")
